@@ -157,7 +157,7 @@ pub fn label_text(name: &str) -> String {
 /// non-ASCII letters, very long. (Not used: characters out of `! & | ^ = < > ( ) ? :` — the
 /// parser accepts them inside quotes but the biodivine bridge panics on such variable names;
 /// that is an input-domain limitation of the bridge, outside the claimed properties.)
-pub const ODD_LABELS: [&str; 13] = ["10", "2", "01", "and", "c", "neg", "a b", "x-1", "ü", "日本", "a,b", "Z", "averyveryveryveryveryveryveryveryveryverylonglabel0123456789"];
+pub const ODD_LABELS: [&str; 15] = ["10", "2", "01", "and", "c", "neg", "a b", "x-1", "ü", "日本", "a,b", "Z", "averyveryveryveryveryveryveryveryveryverylonglabel0123456789", "𝛼", "x𝛼😀y"];
 
 /// Replace the labels of a spec by distinct odd ones (the formulas refer to statements by
 /// position, so nothing else changes).
